@@ -8,8 +8,8 @@ CHECKS = {
          "Hundreds to thousands of stored-request x user x configuration cases are driven through the real login callback; every field of each decoded Success response is compared with a reference record the harness computes itself, extracted twice with independent parsers. Sampling, not proof: the input space (all strings) is unbounded.",
          "Trusts etree/expat parsing, html tokenizer of the harness, and the wall-clock bracket (1 s slack). Strings are drawn from legal XML characters only.", "DESIGN.md §5 C03"),
  "C04": ("exploration", "independent verifiers (goxmldsig + python expat/exc-c14n/modpow; own HTTP-Redirect verifier) over artefacts emitted by the real handlers",
-         "Every signed artefact the handlers emit in the run (assertions on POST / body / SOAP delivery, redirect query signatures, signed metadata) is verified on its wire bytes by two independent verifiers with the certificate the IdP publishes. Known finding D6 (third-party canonicaliser) is reported as KNOWN-FINDING for inputs with characters that canonical XML must escape.",
-         "Trusts crypto/rsa, hashlib, expat; V1 and V2 jointly. Cases whose signed strings contain & < > CR (text) or & < \" TAB LF CR (attributes) are covered by known finding D6 and cannot reveal other signature defects.", "DESIGN.md §5 C04"),
+         "Every signed artefact the handlers emit in the run (assertions on POST / body / SOAP delivery, redirect query signatures, signed metadata) is verified on its wire bytes by two independent verifiers with the certificate the IdP publishes.",
+         "Trusts crypto/rsa, hashlib, expat; V1 and V2 jointly.", "DESIGN.md §5 C04"),
  "C05": ("exploration", "signed-set membership monitor over the storage event log (what was persisted vs. what the simulated SPs really signed)",
          "40 configurations x 18 mutation families of validly signed messages are sent to the real SSO handler; whenever a request is accepted although signing was required or a signature value was present, the persisted content must be exactly something the registered key signed. Rejection is always allowed, so the monitor cannot raise a false alarm on stricter code.",
          "Trusts the harness's own signer (crypto/rsa, goxmldsig SigningContext) and the event log; R2 is not judged when parameter occurrences in query and body differ.", "DESIGN.md §5 C05"),
@@ -17,7 +17,7 @@ CHECKS = {
          "Conformant requests with 0-2 labelled deviations are sent to the real SSO handler; a labelled deviation must never be accepted, and every accepted request is decoded independently and all necessary conditions are re-evaluated against the call's time bracket.",
          "Trusts expat, stdlib base64/flate, the time bracket (2 s slack). Leniencies of encoding/xml that still 'decode as an AuthnRequest' (trailing bytes, duplicate attributes) are not judged.", "DESIGN.md §5 C06"),
  "C07": ("exploration", "conformant-message generator with acceptance monitor (storage log + decoded status)",
-         "Messages a conformant SP can produce (serialisation styles x bindings x signing x encoding styles x KeyInfo layouts x requirements) must be accepted by the real handlers. Known findings D11 and D14 are reported as KNOWN-FINDING for their input classes only.",
+         "Messages a conformant SP can produce (serialisation styles x bindings x signing x encoding styles x KeyInfo layouts x requirements) must be accepted by the real handlers. Known finding D11 is reported as KNOWN-FINDING for its input class only.",
          "The generator defines 'conformant'; it never sends an empty RelayState parameter and uses UTC 'Z' timestamps.", "DESIGN.md §5 C07"),
  "C08": ("exploration", "outcome monitor over recorded ResponseWriter calls and the storage write log",
          "Each SSO request (valid, invalid at each step, unanswerable, failing persistence; any consumer-binding mix) must end in exactly one of the two outcomes; persist count, reply shape, number of documents/forms/WriteHeader calls and left-over records are checked.",
@@ -39,7 +39,7 @@ CHECKS = {
          "Route paths are URL-safe and pairwise distinct; external endpoint URLs are compared textually only.", "DESIGN.md §5 C11"),
  "C12": ("exploration", "disclosure-guard monitor with user canaries + reference attribute filter + independent signature verifiers",
          "Attribute queries with labelled Issuer / Destination / signature / subject / requested attributes: any user canary in a reply implies all guard conditions; answered queries are compared with a reference filter (as sets), the lookup argument, NameID, InResponseTo, Audience, Issuer, and their assertion signature is verified by V1 and V2.",
-         "Signatures over strings that canonical XML must escape are left to C04 (known finding D6). Signed queries are always refused on this tree (known finding D14 of C07), so the 'valid signature' branch is only observed as refusal.", "DESIGN.md §5 C12"),
+         "Signature-wrapping variants (a genuine signed query travelling with an unsigned one in 7 arrangements) must never be answered for the unsigned content.", "DESIGN.md §5 C12"),
  "C13": ("exploration", "label-by-construction monitor on decoded LogoutResponses with wall-clock bracket",
          "Logout requests with labelled validity, hostile RelayState and SP registrations with 0-3 SingleLogoutService entries: Success only for valid requests, InResponseTo echo, Issuer, delivery target = first registered location or body, RelayState unchanged.",
          "Absent / unparseable instants are not judged; RelayState is compared modulo CR/CRLF->LF.", "DESIGN.md §5 C13"),
